@@ -200,6 +200,8 @@ def run(prog, rep, tier, cfg):
     # ---- error discipline: no Result produced in these crates is silently discarded
     X.no_dropped_results('K14', 'results-not-discarded', ['fil_actor_init', 'fil_actor_eam', 'fil_actor_evm'], 'no Result of a call is discarded')
     X.tolerated_failures('K15', 'tolerated-failures', ['fil_actor_init', 'fil_actor_eam', 'fil_actor_evm'], 'tolerated failures are the reviewed ones')
+    X.write_sites_preserved('K16', 'updates-present', 'fil_actor_init', ['State.next_id', 'State.address_map'], 'state updates do not disappear')
+    X.write_sites_preserved('K16', 'updates-present', 'fil_actor_evm', ['System.nonce'], 'state updates do not disappear')
 
 
 
